@@ -50,3 +50,13 @@ Theorem C02_other_version_is_unknown : forall s now n h sent,
 Proof. exact status_other_version_unknown. Qed.
 Print Assumptions C02_other_version_is_unknown.
 Print Assumptions C02_negative_states_answered_negatively.
+
+(* ---- the queue cache: a confirmation does not carry over to another version ---- *)
+From STS Require Import Model.Cache Proofs.CacheP.
+
+Theorem C02_confirmation_not_carried_over : forall c n size time meta hash e e',
+  cget n (c_mem c) = Some e ->
+  (ce_size e <> size \/ ce_time e <> time \/ (hash <> [] /\ ce_hash e <> hash)) ->
+  cget n (c_mem (cadd c n size time meta hash)) = Some e' -> ce_done e' = false.
+Proof. exact add_other_version_not_done. Qed.
+Print Assumptions C02_confirmation_not_carried_over.
